@@ -395,6 +395,14 @@ def _symbolic_for(interp, s, frame, state, space, promoted=None):
                 hv_funcs.add(t.decl().name())
             else:
                 hv_consts.add(t.get_id())
+    # objects whose scalar attributes advance per iteration (e.g. a reading position): their closed form at iteration i is
+    # taken from the first run and used as the pre-state of the second one, so that values computed from them are expressed
+    # in the loop index (validated, like every summary, by the step obligation)
+    obj_summ = {}
+    for sid in other_touched:
+        if pre_heap[sid].kind == "obj":
+            obj_summ[sid] = _summarise_cell(interp, sid, pre_heap[sid], heap_h, st1, iz_early(i), lo, hi, hv_consts, hv_funcs)
+            heap_h[sid] = obj_summ[sid](i)
     if arr_h or other_touched:
         outs = run_body(env_h, heap_h, i, [])
         normal = [(fr, st2) for fr, st2, out in outs if out[0] in ("normal", "continue")]
@@ -449,6 +457,9 @@ def _symbolic_for(interp, s, frame, state, space, promoted=None):
     for sid in other_touched:
         if merged and pre_heap[sid].kind != "file":
             raise zero_fork
+        if sid in obj_summ:
+            summary_heap[sid] = obj_summ[sid]
+            continue
         summary_heap[sid] = _summarise_cell(interp, sid, pre_heap[sid], heap_h, st1, iz, lo, hi, hv_consts, hv_funcs, guarded=merged)
     # ---- build state(k) and check init / step
     def state_at(k):
@@ -834,6 +845,44 @@ def _summarise_array(sid, shape, dt, idx, prev, postv, iz, lo, hi, hv_consts, hv
     pre_fn = pre_heap[sid].data
     meta = pre_heap[sid].meta
     idz = [x.t for x in idx]
+    # (1a) guarded accumulation  A[x] += [cond(i, x)] e(i, x):
+    #   cond independent of i           ->  A[x] = A0[x] + [cond(x)] Σ_t e(t, x)          (guard hoisted out of the sum)
+    #   cond contains x_k == i + c      ->  A[x] = A0[x] + [lo <= w(x) < k, residual] e(w(x), x)   (Kronecker-delta collapse)
+    # both are closed forms of the same sum; like every summary they are validated by the loop:init / loop:step obligations
+    #   (opt-in: loop_opts "cond_acc": "guarded-first"; otherwise the rules (1)-(4) below choose the form)
+    dec = None
+    if (opts or {}).get("cond_acc") == "guarded-first":
+        dec = _decompose_store(postv, prev)
+        if dec is not None:
+            dec = (dec[0], _subst_val(sv.sub(dec[1], prev), []))
+        else:
+            dec = _decompose_guarded(_subst_val(sv.sub(postv, prev), []))
+    if dec is not None:
+        cond, inc = dec
+        its = _terms_of(inc) + [cond]
+        if not any(_contains_any(t, hv_consts, hv_funcs) for t in its):
+            if not _mentions(cond, iz):
+                def at(k):
+                    def fn(ix, k=k):
+                        pairs = [(a, sv.znum(b)) for a, b in zip(idz, ix)]
+                        c = sv.wrap(z3.simplify(z3.substitute(cond, *pairs)))
+                        tot = lambda: Sum(lo, k, lambda t: _subst_val(inc, pairs + [(iz, sv.znum(t))]))
+                        return sv.add(pre_fn(ix), ite(c, tot, 0))
+                    return Content("arr", A._memo(fn), meta)
+                return at
+            sol = _solve_writer(cond, iz, idz)
+            if sol is not None:
+                w, residual = sol
+
+                def at(k):
+                    def fn(ix, k=k):
+                        pairs = [(a, sv.znum(b)) for a, b in zip(idz, ix)]
+                        wk = z3.simplify(z3.substitute(w, *pairs))
+                        c = z3.And(wk >= sv.znum(lo), wk < sv.znum(k), z3.substitute(residual, *pairs))
+                        v = lambda: _subst_val(_subst_val(inc, [(iz, w)]), pairs)
+                        return sv.add(pre_fn(ix), ite(sv.wrap(z3.simplify(c)), v, 0))
+                    return Content("arr", A._memo(fn), meta)
+                return at
     # (1) accumulation: post - prev free of havoc
     delta = sv.sub(postv, prev)
     dts = [z3.simplify(t) for t in _terms_of(delta)]
@@ -1135,6 +1184,41 @@ def _z3_parts(v, like):
     return out
 
 
+def iz_early(i):
+    return i.t
+
+
+def _is_zero(t):
+    return (z3.is_rational_value(t) and t.numerator_as_long() == 0) or (z3.is_int_value(t) and t.as_long() == 0)
+
+
+def _decompose_guarded(delta):
+    """delta == If(cond, e, 0) (componentwise with the same cond for complex; a component may be identically 0) -> (cond, e)"""
+    delta = norm(delta)
+    if isinstance(delta, Cx):
+        a, b = _decompose_guarded(delta.re), _decompose_guarded(delta.im)
+        za = is_conc(norm(delta.re)) and norm(delta.re) == 0
+        zb_ = is_conc(norm(delta.im)) and norm(delta.im) == 0
+        if a is not None and b is not None and a[0].eq(b[0]):
+            return a[0], Cx(a[1], b[1])
+        if a is not None and zb_:
+            return a[0], Cx(a[1], 0)
+        if b is not None and za:
+            return b[0], Cx(0, b[1])
+        return None
+    if not isinstance(delta, SV):
+        return None
+    t = delta.t
+    if z3.is_app(t) and t.decl().kind() == z3.Z3_OP_ITE:
+        c, x, y = t.children()
+        if _is_zero(y):
+            return c, sv.wrap(x)
+        if _is_zero(x):
+            return z3.Not(c), sv.wrap(y)
+    return None
+
+
+
 def _decompose_store(postv, prev):
     """post == If(cond, val, prev) (componentwise for complex) -> (cond, val)"""
     postv, prev = norm(postv), norm(prev)
@@ -1325,6 +1409,25 @@ def _summarise_cell(interp, sid, pre_cell, heap_h, st1, iz, lo, hi, hv_consts, h
         if not isinstance(pre, A.SeqVal) and not isinstance(post, A.SeqVal):
             k0 = len(pre)
             added = post[k0:]
+            if tuple(post[:k0]) == tuple(pre) and len(added) == 1 and k0 == 0 and isinstance(added[0], A.Arr) \
+                    and added[0].sid not in heap_h and added[0].view is None:
+                # one freshly allocated array appended per iteration: element p of the list is that array with the loop
+                # index set to lo + p (its content must not depend on loop-carried state; checked by the step obligation,
+                # which compares the appended array element-wise with the claimed one)
+                v0 = added[0]
+                cell = st1.heap[v0.sid]
+                probe_idx = tuple(sv.fresh_int("q") for _ in cell.meta["shape"])
+                if any(_contains_any(t, hv_consts, hv_funcs) for t in _terms_of(cell.data(probe_idx))):
+                    raise EngineError("appended array depends on loop-carried state")
+
+                def at(k, v0=v0):
+                    length = A.simp(sv.sub(k, lo))
+
+                    def fn(p):
+                        t = sv.znum(A.simp(sv.add(lo, p)))
+                        return _rebind_obj(v0, st1, cur(), iz, t, force=True)
+                    return Content("list", A.SeqVal(length, fn), pre_cell.meta)
+                return at
             if tuple(post[:k0]) == tuple(pre) and len(added) >= 1 and all(sv.is_scalar(norm(x)) for x in added):
                 m = len(added)
                 for x in added:
@@ -1385,6 +1488,32 @@ def _summarise_cell(interp, sid, pre_cell, heap_h, st1, iz, lo, hi, hv_consts, h
             cnt = sv.sub(k, lo) if not guarded else ite(sv.cmp(">", k, lo), sv.sub(k, lo), 0)
             adv = sv.mul(d, cnt) if const else Sum(lo, k, lambda t: _subst_val(d, [(iz, sv.znum(t))]))
             return Content("file", dict(pre_cell.data, pos=A.simp(sv.add(pre_cell.data["pos"], adv))), pre_cell.meta)
+        return at
+    if pre_cell.kind == "obj":
+        pre, post = pre_cell.data, post_cell.data
+        deltas = {}
+        for name in post:
+            if name in pre and (post[name] is pre[name] or (is_conc(norm(post[name])) if sv.is_scalar(norm(post[name])) else False)
+                                and sv.is_scalar(norm(pre[name])) and is_conc(norm(pre[name])) and norm(post[name]) == norm(pre[name])):
+                continue
+            if name not in pre or not sv.is_scalar(norm(pre[name])) or not sv.is_scalar(norm(post[name])):
+                raise EngineError(f"object attribute {name!r} modified in a symbolic loop (not a scalar accumulation)")
+            d = sv.sub(post[name], pre[name])
+            if any(_contains_any(t, hv_consts, hv_funcs) for t in _terms_of(d)):
+                raise EngineError(f"object attribute {name!r}: increment depends on loop-carried state")
+            deltas[name] = d
+        if set(pre) - set(post):
+            raise EngineError("object attribute deleted in a symbolic loop")
+
+        def at(k):
+            data = dict(pre)
+            for name, d in deltas.items():
+                if any(_mentions(t, iz) for t in _terms_of(d)):
+                    inc = Sum(lo, k, lambda t: _subst_val(d, [(iz, sv.znum(t))]))
+                else:
+                    inc = sv.mul(d, A.simp(sv.sub(k, lo)))
+                data[name] = A.simp(sv.add(pre[name], inc))
+            return Content("obj", data, pre_cell.meta)
         return at
     if pre_cell.kind == "df":
         from .pandas_model import summarise_df_cell
@@ -1492,6 +1621,15 @@ def _cell_eq_goals(a, b):
         return goals
     if a.kind == "file" and b.kind == "file":
         return _eq_goals(a.data["pos"], b.data["pos"])
+    if a.kind == "obj" and b.kind == "obj":
+        if set(a.data) != set(b.data):
+            return [z3.BoolVal(False)]
+        goals = []
+        for name in a.data:
+            if a.data[name] is b.data[name]:
+                continue
+            goals.extend(_eq_goals(a.data[name], b.data[name]))
+        return goals
     if a.kind == "df" and b.kind == "df":
         from .pandas_model import df_cell_eq_goals
         return df_cell_eq_goals(a, b, _eq_goals)
@@ -1508,12 +1646,12 @@ def _import_last_iteration_cells(fr1, st1, st, iz, hi, summary_env, frame):
         frame.env[name] = _rebind_obj(v, st1, st, iz, last)
 
 
-def _rebind_obj(v, st1, st, iz, last):
+def _rebind_obj(v, st1, st, iz, last, force=False):
     if isinstance(v, A.Arr):
         c = st1.heap.get(v.sid)
         if c is None:
             return v
-        if v.sid in st.heap:
+        if v.sid in st.heap and not force:
             # the cell exists outside the loop body (allocated before the loop): its content after the loop is the one the
             # summary installed (or the unchanged pre-loop content), never the discovery run's havocked content
             return v
